@@ -20,6 +20,7 @@ import (
 	"time"
 
 	g "github.com/zenon-network/go-zenon/chain/genesis/mock"
+	"github.com/zenon-network/go-zenon/chain/nom"
 	"github.com/zenon-network/go-zenon/common/types"
 	"github.com/zenon-network/go-zenon/consensus"
 	"github.com/zenon-network/go-zenon/vm/constants"
@@ -249,6 +250,13 @@ func c06Run(c *fw.C, caseID string) {
 		}
 	}
 
+	// S also holds unconfirmed blocks of branch X in its pool when the switch happens
+	wA.Step(6)
+	for _, b := range A.Chain.GetAllUncommittedAccountBlocks() {
+		_ = S.Bridge.AddAccountBlocks([]*nom.AccountBlock{simnet.CloneBlock(b)})
+	}
+	c.Count("pool_blocks_of_abandoned_branch_on_switching_node", len(S.Chain.GetAllUncommittedAccountBlocks()))
+
 	// switch S to Y
 	deliverFork := func(to *simnet.Node, from *simnet.Node, fp uint64) (int, error) {
 		// a peer delivers its chain from the fork point on, in one or several batches
@@ -286,6 +294,13 @@ func c06Run(c *fw.C, caseID string) {
 	if err := R.SyncFrom(B, 23); err != nil {
 		c.Violation("sync-failed", err.Error())
 		return
+	}
+	// both nodes now hear the adopted branch's pending blocks through gossip
+	wB.Step(6)
+	for _, b := range B.Chain.GetAllUncommittedAccountBlocks() {
+		for _, n := range []*simnet.Node{S, R} {
+			_ = n.Bridge.AddAccountBlocks([]*nom.AccountBlock{simnet.CloneBlock(b)})
+		}
 	}
 	c06Compare(c, S, R, forkPoint, "after-switch", depthX)
 	c.Distinct(fmt.Sprintf("depthX=%d lenY=%d switches=1 feats=%d", depthX, depthX+extraY, len(feats)))
